@@ -59,6 +59,9 @@ CLAIMED = {
     "C19": ("property-based testing: product / subset oracles for exploration controls, boundary-value generation for limits",
             "Phase programs with one or two frozen phases must yield exactly the product of the explored phases; arbitrary legal placements must yield a subset with valid executions; max_branches / max_threads panic exactly when the need exceeds the limit; max_permutations / max_duration stop between iterations within the documented boundary.",
             "Phases are independent by construction; max_duration only at its deterministic ends.", "4/C19"),
+    "C20": ("property-based differential testing: generated block_on / AtomicWaker programs under loom vs an explicit-state interleaving reference (R-FUT)",
+            "Bounded generated programs with one or two sequential block_on calls and 1-2 waking threads per task, incl. planted lost wake-ups: poll counts per task and deadlock verdicts must agree with the reference (small programs: set equality under full exploration; larger ones: subset under a preemption bound).",
+            "Trusts R-FUT (harness/src/props/c20.rs); the contended AtomicWaker::register path is unreachable under loom's scheduling and is not modelled.", "4/C20"),
     "C12": ("property-based differential testing against std atomics (random op sequences + exhaustive 8-bit operand sub-domain)",
             "Generated single-threaded operation sequences on every loom atomic type are executed on the loom atomic inside loom::model and on the std atomic; all results and final contents must agree. Exhaustive for u8/i8 binary RMWs over all 256x256 operand pairs; sampled (boundary-biased) for wider types.",
             "std atomics are the reference; compare_exchange_weak is compared with the strong std operation (loom documents no spurious failure).", "4/C12"),
